@@ -108,28 +108,24 @@ theorem sortEdges_sorted (es : List Edge) : SortedT (sortEdges es) :=
 
 /-! ### the accumulation loop -/
 
-theorem sumEdges_eq_emit (es : List Edge) : sumEdges es = emit 0 0 es := by
+theorem sumEdges_eq_emit (drop : Int → Bool) (es : List Edge) (h0 : drop 0 = true) :
+    sumEdges drop es = emit drop 0 0 es := by
   cases es with
-  | nil => simp [sumEdges, emit]
+  | nil => simp [sumEdges, emit, h0]
   | cons e es => rfl
 
 /-- What `emit` denotes, exactly: the running total of the deltas seen so far — except that from the
-last edge on the result is `0` instead of a negative total (the open element is dropped). -/
-theorem emit_den_exact (es : List Edge) (mag lt t : Int) (hs : SortedT es)
+last edge on the result is `0` when the rule `drop` removes the open element. -/
+theorem emit_den_exact (drop : Int → Bool) (es : List Edge) (mag lt t : Int) (hs : SortedT es)
     (hge : ∀ e ∈ es, lt ≤ e.time) (ht : lt ≤ t) :
-    den (emit mag lt es) (t - lt) =
-      if mag + sumAll es < 0 ∧ (∀ e ∈ es, e.time ≤ t) then 0 else mag + sumLe t es := by
+    den (emit drop mag lt es) (t - lt) =
+      if drop (mag + sumAll es) = true ∧ (∀ e ∈ es, e.time ≤ t) then 0 else mag + sumLe t es := by
   induction es generalizing mag lt with
   | nil =>
     simp only [emit, sumAll, sumLe, Int.add_zero]
-    by_cases hm : mag ≤ 0
-    · simp only [hm, if_true, den_nil]
-      by_cases hm2 : mag < 0
-      · simp [hm2]
-      · have : mag = 0 := by omega
-        simp [this]
-    · have hm2 : ¬ mag < 0 := by omega
-      simp only [hm, hm2, if_false, false_and]
+    by_cases hm : drop mag = true
+    · simp [hm, den_nil]
+    · simp only [hm, if_false, false_and, Bool.false_eq_true]
       rw [den_cons_none ⟨mag, none⟩ [] _ rfl (by omega)]
   | cons e es ih =>
     unfold SortedT at hs
@@ -178,12 +174,12 @@ theorem updLast_append_single (f : Seg → Seg) (done : List Seg) (x : Seg) :
       rw [ih]
 
 /-- Loop invariant of `Sum`: `result = done ++ [open element with Length == nil]`. -/
-theorem sumGo_invariant (es : List Edge) (done : List Seg) (mag lt : Int) :
-    trimLast (es.foldl sumGoStep (done ++ [⟨mag, none⟩], lt)).1 = done ++ emit mag lt es := by
+theorem sumGo_invariant (drop : Int → Bool) (es : List Edge) (done : List Seg) (mag lt : Int) :
+    trimLast drop (es.foldl sumGoStep (done ++ [⟨mag, none⟩], lt)).1 = done ++ emit drop mag lt es := by
   induction es generalizing done mag lt with
   | nil =>
     simp only [List.foldl_nil, trimLast, List.getLast?_append, List.getLast?_singleton, emit]
-    by_cases h : mag ≤ 0
+    by_cases h : drop mag = true
     · simp [h]
     · simp [h]
   | cons e es ih =>
@@ -205,7 +201,7 @@ theorem sumGo_invariant (es : List Edge) (done : List Seg) (mag lt : Int) :
       rw [this]
       simp
 
-theorem sumGoEdges_eq (es : List Edge) : sumGoEdges es = sumEdges es := by
+theorem sumGoEdges_eq (drop : Int → Bool) (es : List Edge) : sumGoEdges drop es = sumEdges drop es := by
   cases es with
   | nil => simp [sumGoEdges, sumEdges, trimLast]
   | cons e rest =>
@@ -221,12 +217,12 @@ theorem sumGoEdges_eq (es : List Edge) : sumGoEdges es = sumEdges es := by
     rw [hfirst]
     by_cases h0 : e.time - 0 = 0
     · simp only [h0, if_true]
-      have := sumGo_invariant rest [] (0 + e.delta) 0
+      have := sumGo_invariant drop rest [] (0 + e.delta) 0
       simp only [List.nil_append] at this ⊢
       rw [this]
       simp [sumEdges, emit, h0]
     · simp only [h0, if_false]
-      have := sumGo_invariant rest ([] ++ [⟨0, some (e.time - 0)⟩]) (0 + e.delta) e.time
+      have := sumGo_invariant drop rest ([] ++ [⟨0, some (e.time - 0)⟩]) (0 + e.delta) e.time
       rw [this]
       have h1 : ¬ e.time = 0 := by omega
       simp [sumEdges, emit, h1]
@@ -343,31 +339,78 @@ theorem denSum_neg (ls : List (List Seg)) (t : Int) (ht : t < 0) : denSum ls t =
   | cons l ls ih => simp [denSum, den_neg l t ht, ih]
 
 /-- The meaning of `Sum` computed from ANY time-sorted arrangement `es` of the raw edges. -/
-theorem sumEdges_den (ls : List (List Seg)) (h : AllNonNeg ls) (es : List Edge)
-    (hp : es.Perm (rawEdges ls)) (hs : SortedT es) (t : Int) :
-    den (sumEdges es) t =
-      if tailSum ls < 0 ∧ 0 ≤ t ∧ (∀ e ∈ rawEdges ls, e.time ≤ t) then 0 else denSum ls t := by
-  rw [sumEdges_eq_emit]
+theorem sumEdges_den (drop : Int → Bool) (hd0 : drop 0 = true) (ls : List (List Seg))
+    (h : AllNonNeg ls) (es : List Edge) (hp : es.Perm (rawEdges ls)) (hs : SortedT es) (t : Int) :
+    den (sumEdges drop es) t =
+      if drop (tailSum ls) = true ∧ 0 ≤ t ∧ (∀ e ∈ rawEdges ls, e.time ≤ t) then 0
+      else denSum ls t := by
+  rw [sumEdges_eq_emit drop es hd0]
   by_cases ht : t < 0
   · rw [den_neg _ _ ht, denSum_neg ls t ht]
     simp
   · have ht0 : 0 ≤ t := by omega
     have hge : ∀ e ∈ es, (0 : Int) ≤ e.time := fun e he => rawEdges_time_ge ls h e (hp.subset he)
-    have := emit_den_exact es 0 0 t hs hge ht0
+    have := emit_den_exact drop es 0 0 t hs hge ht0
     simp only [Int.sub_zero, Int.zero_add] at this
     rw [this, sumAll_perm hp, sumLe_perm t hp, rawEdges_sumAll, rawEdges_sumLe ls h t ht0]
     have hall : (∀ e ∈ es, e.time ≤ t) ↔ (∀ e ∈ rawEdges ls, e.time ≤ t) :=
       ⟨fun hh e he => hh e (hp.symm.subset he), fun hh e he => hh e (hp.subset he)⟩
     simp only [hall, ht0, true_and]
 
+theorem sumLe_of_all_le (t : Int) (es : List Edge) (h : ∀ e ∈ es, e.time ≤ t) : sumLe t es = sumAll es := by
+  induction es with
+  | nil => rfl
+  | cons e es ih =>
+    have h1 : e.time ≤ t := h e List.mem_cons_self
+    simp only [sumLe, sumAll, h1, if_true, ih (fun x hx => h x (List.mem_cons_of_mem _ hx))]
+
+theorem tailMag_of_finite (l : List Seg) (h : (duration l).2 = false) : tailMag l = 0 := by
+  unfold duration at h
+  induction l with
+  | nil => rfl
+  | cons s rest ih =>
+    cases hs : s.len with
+    | none => simp [durationLoop, hs] at h
+    | some len =>
+      simp only [durationLoop, hs] at h
+      rw [durationLoop_shift] at h
+      simp only [tailMag, hs]
+      exact ih h
+
+theorem tailSum_of_not_anyInfinite (ls : List (List Seg)) (h : anyInfinite ls = false) : tailSum ls = 0 := by
+  induction ls with
+  | nil => rfl
+  | cons l ls ih =>
+    simp only [anyInfinite, List.any_cons, Bool.or_eq_false_iff] at h
+    simp only [tailSum, tailMag_of_finite l h.1]
+    have := ih (by simpa [anyInfinite] using h.2)
+    omega
+
+/-- `Sum` (fixed rule) is pointwise addition, from ANY time-sorted arrangement of the raw edges. -/
+theorem sumEdges_den_full (ls : List (List Seg)) (h : AllNonNeg ls) (es : List Edge)
+    (hp : es.Perm (rawEdges ls)) (hs : SortedT es) (t : Int) :
+    den (sumEdges (dropRule (anyInfinite ls)) es) t = denSum ls t := by
+  rw [sumEdges_den (dropRule (anyInfinite ls)) (by simp [dropRule]) ls h es hp hs t]
+  split
+  · rename_i hc
+    obtain ⟨hdrop, ht0, hall⟩ := hc
+    -- from the last edge on, the pointwise sum is the value "at infinity", which the rule says is 0
+    rw [← rawEdges_sumLe ls h t ht0, sumLe_of_all_le t _ hall, rawEdges_sumAll]
+    simp only [dropRule, Bool.or_eq_true, decide_eq_true_eq, Bool.not_eq_true'] at hdrop
+    rcases hdrop with h0 | hinf
+    · exact h0.symm
+    · exact (tailSum_of_not_anyInfinite ls hinf).symm
+  · rfl
+
 /-! ### order independence: `sort.Slice` is not stable, and it does not matter -/
 
-theorem emit_congr (e : Edge) (a b : List Edge) (h : ∀ mag lt, emit mag lt a = emit mag lt b)
-    (mag lt : Int) : emit mag lt (e :: a) = emit mag lt (e :: b) := by
+theorem emit_congr (drop : Int → Bool) (e : Edge) (a b : List Edge)
+    (h : ∀ mag lt, emit drop mag lt a = emit drop mag lt b)
+    (mag lt : Int) : emit drop mag lt (e :: a) = emit drop mag lt (e :: b) := by
   simp only [emit, h]
 
-theorem emit_swap (e1 e2 : Edge) (es : List Edge) (h : e1.time = e2.time) (mag lt : Int) :
-    emit mag lt (e1 :: e2 :: es) = emit mag lt (e2 :: e1 :: es) := by
+theorem emit_swap (drop : Int → Bool) (e1 e2 : Edge) (es : List Edge) (h : e1.time = e2.time)
+    (mag lt : Int) : emit drop mag lt (e1 :: e2 :: es) = emit drop mag lt (e2 :: e1 :: es) := by
   simp only [emit, h]
   have c : mag + e1.delta + e2.delta = mag + e2.delta + e1.delta := by omega
   by_cases h0 : e2.time - lt = 0
@@ -375,21 +418,22 @@ theorem emit_swap (e1 e2 : Edge) (es : List Edge) (h : e1.time = e2.time) (mag l
   · simp [h0, c]
 
 /-- Moving an edge in front of a block of edges with the same time does not change the result. -/
-theorem emit_move_front (e : Edge) (pre post : List Edge) (h : ∀ x ∈ pre, x.time = e.time)
-    (mag lt : Int) : emit mag lt (pre ++ e :: post) = emit mag lt (e :: (pre ++ post)) := by
+theorem emit_move_front (drop : Int → Bool) (e : Edge) (pre post : List Edge)
+    (h : ∀ x ∈ pre, x.time = e.time)
+    (mag lt : Int) : emit drop mag lt (pre ++ e :: post) = emit drop mag lt (e :: (pre ++ post)) := by
   induction pre generalizing mag lt with
   | nil => rfl
   | cons x xs ih =>
     have hx := h x List.mem_cons_self
     have hxs : ∀ y ∈ xs, y.time = e.time := fun y hy => h y (List.mem_cons_of_mem _ hy)
-    calc emit mag lt (x :: xs ++ e :: post)
-        = emit mag lt (x :: (xs ++ e :: post)) := rfl
-      _ = emit mag lt (x :: e :: (xs ++ post)) := emit_congr x _ _ (fun m l => ih hxs m l) mag lt
-      _ = emit mag lt (e :: x :: (xs ++ post)) := emit_swap x e _ hx mag lt
+    calc emit drop mag lt (x :: xs ++ e :: post)
+        = emit drop mag lt (x :: (xs ++ e :: post)) := rfl
+      _ = emit drop mag lt (x :: e :: (xs ++ post)) := emit_congr drop x _ _ (fun m l => ih hxs m l) mag lt
+      _ = emit drop mag lt (e :: x :: (xs ++ post)) := emit_swap drop x e _ hx mag lt
 
 /-- Two time-sorted arrangements of the same edges produce the same segment list. -/
-theorem emit_order_irrelevant (a b : List Edge) (hp : a.Perm b) (ha : SortedT a) (hb : SortedT b)
-    (mag lt : Int) : emit mag lt a = emit mag lt b := by
+theorem emit_order_irrelevant (drop : Int → Bool) (a b : List Edge) (hp : a.Perm b) (ha : SortedT a)
+    (hb : SortedT b) (mag lt : Int) : emit drop mag lt a = emit drop mag lt b := by
   induction a generalizing b mag lt with
   | nil => rw [List.Perm.eq_nil hp.symm]
   | cons e rest ih =>
@@ -412,12 +456,16 @@ theorem emit_order_irrelevant (a b : List Edge) (hp : a.Perm b) (ha : SortedT a)
       rw [List.pairwise_append]
       refine ⟨hb'.1, (List.pairwise_cons.mp hb'.2.1).2, fun x hx y hy => ?_⟩
       exact hb'.2.2 x hx y (List.mem_cons_of_mem _ hy)
-    rw [emit_move_front e pre post hpre mag lt]
-    exact emit_congr e _ _ (fun m l => ih (pre ++ post) hp' ha.2 hsorted m l) mag lt
+    rw [emit_move_front drop e pre post hpre mag lt]
+    exact emit_congr drop e _ _ (fun m l => ih (pre ++ post) hp' ha.2 hsorted m l) mag lt
 
-theorem sumEdges_order_irrelevant (a b : List Edge) (hp : a.Perm b) (ha : SortedT a) (hb : SortedT b) :
-    sumEdges a = sumEdges b := by
-  rw [sumEdges_eq_emit, sumEdges_eq_emit]
-  exact emit_order_irrelevant a b hp ha hb 0 0
+theorem sumEdges_order_irrelevant (drop : Int → Bool) (a b : List Edge) (hp : a.Perm b)
+    (ha : SortedT a) (hb : SortedT b) : sumEdges drop a = sumEdges drop b := by
+  cases a with
+  | nil => rw [List.Perm.eq_nil hp.symm]
+  | cons x xs =>
+    cases b with
+    | nil => exact absurd (List.Perm.eq_nil hp) (by simp)
+    | cons y ys => exact emit_order_irrelevant drop _ _ hp ha hb 0 0
 
 end ScVerif.C18
